@@ -11,6 +11,7 @@
  *             afterwards - the environment poisons it on TEARDOWN).
  */
 #include <verif/verif.h>
+#define OS_FUTEX_SLEEP_VALUE 0	/* wait nodes sleep on URCU_WAIT_WAITING == 0 */
 #include <verif/os_stubs.h>
 #define RCU_MEMBARRIER
 #include <verif/flavor_pre.h>
